@@ -29,6 +29,9 @@ type TypedDocCase struct {
 	AccDeps map[string]DepAST   `json:"accDeps,omitempty"`
 	Feats   []string            `json:"feats"`
 	Rd      string              `json:"rd,omitempty"` // "" or a key of oddReaders: how the source delivers its bytes
+	// Repeat > 1 (packages, sources): the index holds the generated paragraphs Repeat times over - a
+	// suite's index runs to tens of thousands of paragraphs
+	Repeat int `json:"repeat,omitempty"`
 }
 
 var bufSizes = []int{16, 64, 200, 1024, 4096, 4096, 8192, 65536}
@@ -101,8 +104,8 @@ func genDscDoc(t *rapid.T) TypedDocCase {
 	maybeDepField(t, b, &e, "Build-Depends-Arch", "BuildDependsArch", 3)
 	maybeDepField(t, b, &e, "Build-Depends-Indep", "BuildDependsIndep", 3)
 	b.line("Package-List:")
-	for _, bn := range bins {
-		b.line(" " + bn + " deb misc optional arch=any")
+	for i, bn := range bins {
+		b.line(" " + genPackageListLine(t, fmt.Sprintf("pl%d", i), bn))
 	}
 	files := genFiles(t, "files", src, strings.ReplaceAll(ver, ":", "%3a"), 1, 5)
 	sizes := genSizes(t, "size", len(files))
@@ -476,7 +479,7 @@ func genSourcesDoc(t *rapid.T) TypedDocCase {
 			e.Scalars["Homepage"] = "http://www.example.org"
 		}
 		b.line("Package-List: ")
-		b.line(" " + bins[0] + " deb misc optional arch=any")
+		b.line(" " + genPackageListLine(t, "pl", bins[0]))
 		dir := "pool/main/" + src[:1] + "/" + src
 		b.scalar("Directory", dir)
 		e.Scalars["Directory"] = dir
@@ -589,6 +592,24 @@ func checkAccDeps(got func(field string) dependency.Dependency, want map[string]
 }
 
 func checkTypedDoc(c TypedDocCase, r *Recorder) error {
+	if c.Repeat > 1 && (c.Kind == "packages" || c.Kind == "sources") {
+		if c.Repeat*len(c.Exps) > 200000 {
+			return errf("HARNESS: %d paragraphs", c.Repeat*len(c.Exps))
+		}
+		one := strings.TrimRight(c.Text, "\n") + "\n"
+		c.Text = strings.Repeat(one+"\n", c.Repeat)
+		exps := c.Exps
+		c.Exps = make([]Exp, 0, c.Repeat*len(exps))
+		acc := map[string][]string{}
+		for k := 0; k < c.Repeat; k++ {
+			c.Exps = append(c.Exps, exps...)
+			for name, vals := range c.Acc {
+				acc[name] = append(acc[name], vals...)
+			}
+		}
+		c.Acc = acc
+		c.Feats = append(append([]string{}, c.Feats...), "multi-paragraph", "more-than-1000-paragraphs")
+	}
 	nt := false
 	for _, f := range c.Feats {
 		if f == "folded" || f == "multi-binary" || f == "multi-file" || f == "multi-paragraph" {
@@ -831,15 +852,43 @@ func checkTypedDoc(c TypedDocCase, r *Recorder) error {
 	return nil
 }
 
+// genPackageListLine: one line of a Package-List field as dpkg-source writes them (dsc(5)):
+// package, type, section, priority and then zero or more key=value columns - arch=, profile=,
+// protected=, essential= - in that order.
+func genPackageListLine(t *rapid.T, label, bin string) string {
+	line := bin + " " + rapid.SampledFrom([]string{"deb", "deb", "udeb"}).Draw(t, label+"ty") + " " +
+		rapid.SampledFrom([]string{"misc", "libs", "debian-installer", "contrib/utils", "unknown"}).Draw(t, label+"sec") + " " +
+		rapid.SampledFrom([]string{"optional", "required", "important", "extra", "unknown"}).Draw(t, label+"pri")
+	if rapid.IntRange(0, 5).Draw(t, label+"arch") != 0 {
+		line += " arch=" + rapid.SampledFrom([]string{"any", "all", "linux-any", "amd64,arm64", "any,all", "kfreebsd-any,hurd-i386"}).Draw(t, label+"archv")
+	}
+	if rapid.IntRange(0, 3).Draw(t, label+"prof") == 0 {
+		line += " profile=" + rapid.SampledFrom([]string{"!noudeb", "!stage1", "cross,!nocheck", "!noudeb+!stage1", "pkg.foo.bar"}).Draw(t, label+"profv")
+	}
+	if rapid.IntRange(0, 5).Draw(t, label+"prot") == 0 {
+		line += " protected=yes"
+	}
+	if rapid.IntRange(0, 3).Draw(t, label+"ess") == 0 {
+		line += " essential=yes"
+	}
+	return line
+}
+
 var specC10 = Register(&Spec[TypedDocCase]{
 	Prop: "C10", Name: "typed",
-	Rule:  "six document kinds rendered from a field model in the layout the Debian tools emit: .dsc (Binary 'a, b, c' single-line or folded, Architecture list, Uploaders, Build-Depends* single-line / folded / wrap-and-sort, Package-List, Checksums-Sha1/-Sha256, Files), .changes (space-separated Binary, Closes, multi-line Description and Changes with ' .', 5-column Files), debian/control (source paragraph + 1..4 binary paragraphs, folded Uploaders and dependency fields with substvars, Essential, multi-line Description), Packages (Source 'name (ver)', Installed-Size, folded Tag, Build-Ids, dependency accessors), Sources (folded Binary, Standards-Version, Vcs-*, Directory, accessors) and DEBIAN/control (decoded from text and, packed into control.tar / control.tar.gz of a minimal .deb, through deb.Load; one in twelve with a description that takes the control file beyond 32 KiB); unknown X- fields sprinkled in; the bufio.Reader handed to the Parse* functions has a generated size 16..65536 and reads from a plain, one-byte, half or data-with-EOF reader. Oracle: every struct field whose Debian field is in the model equals the model (scalars verbatim / reader convention, versions by parts, architectures by triple, dependencies against the model AST, comma/space lists as trimmed elements, file lists as (algorithm, hash, size, name[, section, priority])), accessors agree with the model. Non-trivial: a folded field, >= 2 binaries, >= 2 files or >= 2 paragraphs; distinct by (kind, text, buffer size).",
+	Rule:  "six document kinds rendered from a field model in the layout the Debian tools emit: .dsc (Binary 'a, b, c' single-line or folded, Architecture list, Uploaders, Build-Depends* single-line / folded / wrap-and-sort, Package-List lines of 4 to 8 columns (arch=, profile=, protected=, essential=), Checksums-Sha1/-Sha256, Files), .changes (space-separated Binary, Closes, multi-line Description and Changes with ' .', 5-column Files), debian/control (source paragraph + 1..4 binary paragraphs, folded Uploaders and dependency fields with substvars, Essential, multi-line Description), Packages and Sources indexes of 1..4 paragraphs or (one in 25) the same paragraphs repeated to 1025 .. 4100; Packages (Source 'name (ver)', Installed-Size, folded Tag, Build-Ids, dependency accessors), Sources (folded Binary, Standards-Version, Vcs-*, Directory, accessors) and DEBIAN/control (decoded from text and, packed into control.tar / control.tar.gz of a minimal .deb, through deb.Load; one in twelve with a description that takes the control file beyond 32 KiB); unknown X- fields sprinkled in; the bufio.Reader handed to the Parse* functions has a generated size 16..65536 and reads from a plain, one-byte, half or data-with-EOF reader. Oracle: every struct field whose Debian field is in the model equals the model (scalars verbatim / reader convention, versions by parts, architectures by triple, dependencies against the model AST, comma/space lists as trimmed elements, file lists as (algorithm, hash, size, name[, section, priority])), accessors agree with the model. Non-trivial: a folded field, >= 2 binaries, >= 2 files or >= 2 paragraphs; distinct by (kind, text, buffer size).",
 	Check: checkTypedDoc,
 })
 
 func genTypedDoc(t *rapid.T) TypedDocCase {
 	c := genTypedDocPlain(t)
 	c.Rd = rapid.SampledFrom([]string{"", "", "", "one-byte reader", "half reader", "data-with-EOF reader"}).Draw(t, "rd")
+	if (c.Kind == "packages" || c.Kind == "sources") && rapid.IntRange(0, 24).Draw(t, "long") == 0 {
+		// a long index: 1024 paragraphs and more, the count not a round number
+		want := rapid.SampledFrom([]int{1025, 1027, 1500, 2051, 4099}).Draw(t, "longN")
+		c.Repeat = (want + len(c.Exps) - 1) / len(c.Exps)
+		c.Rd = ""
+	}
 	return c
 }
 
